@@ -273,7 +273,7 @@ def case_line(case):
     return " ".join(toks)
 
 
-def gen_case(rng, malformed=False):
+def gen_case(rng, malformed=False, want_uninhabited=False):
     for _ in range(50):
         classes = gen_classes(rng)
         root_cls = rng.pick(classes)
@@ -284,8 +284,23 @@ def gen_case(rng, malformed=False):
         ty = ("cls", root_cls["name"], arg)
         order, _ = closure(classes, ty)
         inh = min_inhabitants(classes, order)
-        if all(v is not None for v in inh.values()):
+        if all(v is not None for v in inh.values()) != want_uninhabited:
             break
+        if want_uninhabited:
+            # force it: a fresh enum whose only variant refers to itself, used as a field type
+            bad = {"name": "C9", "generic": False, "kind": "enum", "variants": [(rng.below(len(VNAMES)), [("cls", "C9", None)])]}
+            classes = classes + [bad]
+            tgt = rng.pick(classes[:-1])
+            if tgt["kind"] == "enum":
+                v, tys = tgt["variants"][-1]
+                tgt["variants"][-1] = (v, (tys + [("cls", "C9", None)])[:3] if len(tys) < 3 else [("cls", "C9", None)] + tys[1:])
+            else:
+                f, _ = tgt["fields"][-1]
+                tgt["fields"][-1] = (f, ("cls", "C9", None))
+            order, _ = closure(classes, ty)
+            inh = min_inhabitants(classes, order)
+            if not all(v is not None for v in inh.values()):
+                break
     else:
         classes = [{"name": "C0", "generic": False, "kind": "enum", "variants": [(0, []), (1, [("int",)])]}]
         ty = ("cls", "C0", None)
@@ -531,7 +546,7 @@ def model_verdict(ans):
     kv = dict(x.split("=", 1) for x in ans.split(" "))
     ne = None if kv["nonexh"] == "-" else re.sub(r"#(\d+)", lambda m: VNAMES[int(m.group(1))], kv["nonexh"].replace("~", " "))
     return {"nonexh": ne, "useless": kv["useless"] == "1", "err": kv["err"] == "1",
-            "panic_norm": kv["panic"] == "1", "typed": kv["typed"] == "1"}
+            "panic_norm": kv["panic"] == "1", "typed": kv["typed"] == "1", "inh": kv.get("inh") == "1"}
 
 
 def arity_overflow(classes, p, t):
@@ -568,6 +583,12 @@ def classify(ctx, case, ians, mans, stats):
         if not iv["err"]:
             return ("ill-typed pattern accepted without any other diagnostic", False, None)
         return None
+    order, _ = closure(case["classes"], case["ty"])
+    py_inh = all(v is not None for v in min_inhabitants(case["classes"], order).values())
+    if py_inh != mv["inh"]:
+        return (f"inhabitedness certificate of the model (inh={mv['inh']}) disagrees with the generator's fixpoint ({py_inh})", True, None)
+    if not py_inh:
+        stats["uninhabited"] = stats.get("uninhabited", 0) + 1
     status, fails = oracle(case, iv)
     stats[status] = stats.get(status, 0) + 1
     if fails:
@@ -721,10 +742,12 @@ def run(ctx):
     n_valid = ctx.scale(1400, 40000)
     n_small = ctx.scale(600, 20000)
     n_mal = ctx.scale(300, 6000)
+    n_un = ctx.scale(100, 2000)
     batch = 500
     for n, mk, label in ((n_valid, lambda: gen_case(rng.fork(), False), "generated valid"),
                          (n_small, None, "small-vocabulary search"),
-                         (n_mal, lambda: gen_case(rng.fork(), True), "generated malformed")):
+                         (n_mal, lambda: gen_case(rng.fork(), True), "generated malformed"),
+                         (n_un, lambda: gen_case(rng.fork(), False, True), "generated with an uninhabited type (model/implementation agreement only)")):
         done = 0
         while done < n and not ctx.violations:
             k = min(batch, n - done)
@@ -749,7 +772,7 @@ def run(ctx):
         "rule": "one evaluation = one generated module (1-4 enum/struct/generic classes, recursive and nested) with one match (1-6 arms) / destructuring let / if-let over variant, tuple, object, wildcard, id, or-patterns of depth <= 4, type-checked by the real checker and by the model; non-trivial = distinct implementation answer carrying a NonExhaustiveMatch counterexample or an irrefutable-if-let diagnostic",
         "samples": samples, "traces_validated_against_impl": total,
         "case_kinds": stats["kinds"], "impl_outcomes": stats["outcomes"],
-        "oracle": {k: v for k, v in stats.items() if k in ("checked", "skipped-size", "skipped-malformed", "skipped-uninhabited", "illtyped", "known_F1")},
+        "oracle": {k: v for k, v in stats.items() if k in ("checked", "skipped-size", "skipped-malformed", "skipped-uninhabited", "illtyped", "uninhabited")},
         "pending": PENDING})
     ctx.assumptions += [
         "every type reachable from the scrutinee type has a value (Inhabited'); for uninhabited recursive enums the algorithm still asks for all variants (stated in DESIGN section 8 C07)",
